@@ -2,6 +2,7 @@ package verifsim
 
 import (
 	"fmt"
+	"path/filepath"
 	"strings"
 	"time"
 
@@ -27,7 +28,9 @@ type c12cell struct {
 	outcome  string // accepted | rejected
 }
 
-var c12cells = []c12cell{{"first", "accepted"}, {"first", "rejected"}, {"refresh", "accepted"}, {"refresh", "rejected"}}
+// the fifth cell: an acceptable refresh whose directory swap FAILS (renames return errors through all their retries),
+// so that the crash points also cover the store's way back to the previous database
+var c12cells = []c12cell{{"first", "accepted"}, {"first", "rejected"}, {"refresh", "accepted"}, {"refresh", "rejected"}, {"refresh", "swapfault"}}
 var c12kinds = []string{"hit", "os", "st", "st-torn"}
 
 func c12dims(tier string) (perHit, perOs, perSt int) {
@@ -113,6 +116,29 @@ func runC12(h *Harness) {
 		}
 		sc["variant"] = loc.Variant
 	}
+	if cell.outcome == "swapfault" {
+		// which step of the swap fails: 0 = moving the live database aside; 1 = moving the new one in (the way back
+		// works); 2 = moving the new one in and the way back too (the store stays closed: lookups must fail)
+		variant := k % 3
+		sc["swapfault"] = []string{"move-aside", "move-in", "move-in+rollback"}[variant]
+		toFinal := 0
+		h.Disk.OsFault = func(nn int, op string, paths []string, node string) error {
+			if op != "rename" || len(paths) < 2 {
+				return nil
+			}
+			srcTmp, dstTmp := isTmpName(filepath.Base(paths[0])), isTmpName(filepath.Base(paths[1]))
+			switch {
+			case variant == 0 && !srcTmp && dstTmp:
+				return ErrIO
+			case variant >= 1 && srcTmp && !dstTmp:
+				toFinal++
+				if variant == 2 || toFinal <= 5 {
+					return ErrIO
+				}
+			}
+			return nil
+		}
+	}
 	// arm the crash point
 	h.S.crashScope = crlScope
 	h.S.hitCount = 0
@@ -142,6 +168,7 @@ func runC12(h *Harness) {
 	}
 	reached := h.S.crashTask != nil || h.Disk.StSnapDone
 	h.S.crashAtHit, h.Disk.OsCrashAt = 0, 0
+	h.Disk.OsFault = nil
 	sc["reached"] = reached
 	if !reached {
 		h.Probe("past-end:" + cell.scenario + "/" + cell.outcome + ":" + kind)
@@ -250,7 +277,7 @@ func runC12(h *Harness) {
 		ok = false
 	case prev >= 0 && desc == want(prev) && pat == fmt.Sprintf("v%d", prev+1):
 		ok = true
-	case cell.outcome == "accepted" && desc == want(newV) && pat == fmt.Sprintf("v%d", newV+1):
+	case cell.outcome != "rejected" && desc == want(newV) && pat == fmt.Sprintf("v%d", newV+1):
 		ok = true
 	}
 	if !ok {
@@ -267,7 +294,7 @@ func runC12(h *Harness) {
 			ok = true // handled above; kept for clarity
 		}
 		h.Violation("C12.post-crash-state", class+":"+cell.scenario+"/"+cell.outcome, "after a crash at %s %d (site %s) during %s (%s), the restarted validator (origin down, strict) answers %s, pure-probe pattern %s; allowed: not loaded%s%s", kind, k, site, cell.scenario, cell.outcome, desc, pat,
-			map[bool]string{true: ", exactly v" + fmt.Sprint(prev+1), false: ""}[prev >= 0], map[bool]string{true: ", exactly v" + fmt.Sprint(newV+1), false: ""}[cell.outcome == "accepted"])
+			map[bool]string{true: ", exactly v" + fmt.Sprint(prev+1), false: ""}[prev >= 0], map[bool]string{true: ", exactly v" + fmt.Sprint(newV+1), false: ""}[cell.outcome != "rejected"])
 	}
 	// whatever the crashed operation left in the work_dir besides databases the validator uses under that name is a
 	// leftover artefact, whether or not its name matches the temporary pattern
@@ -277,4 +304,8 @@ func runC12(h *Harness) {
 	}
 	h.R.Sample = map[string]any{"cell": cell.scenario + "/" + cell.outcome, "crash": fmt.Sprintf("%s %d", kind, k), "site": site, "post": desc, "pattern": pat}
 	h.Cleanup(m)
+}
+
+func isTmpName(name string) bool {
+	return len(name) >= 8 && strings.HasPrefix(name, "crl_") && strings.HasSuffix(name, "_tmp")
 }
